@@ -211,8 +211,15 @@ func (f *StringFormatter) literal() string {
 	return string(f.runes())
 }
 
+// maxFormatNumber is the largest width or precision honoured in a placeholder
+// (the same limit as package fmt).
+const maxFormatNumber = 1000000
+
 func (f *StringFormatter) integer() int {
 	i, _ := strconv.Atoi(string(f.runes()))
+	if maxFormatNumber < i {
+		i = maxFormatNumber
+	}
 	return i
 }
 
